@@ -389,12 +389,28 @@ def _solver_job(item):
                         s.min(x)
                     except claripy.errors.UnsatError:
                         pass
+                elif pre == "round2":
+                    # a first simplify() happened when only the first constraint was there
+                    s = H.make_solver(cls, {})
+                    s.add(uni.K[labels[0]])
+                    s.simplify()
+                    for l in labels[1:]:
+                        s.add(uni.K[l])
                 twin = None
                 if "Replacement" in cls:
                     # SolverReplacement is not exact (C13 lists that): judge simplify() against a never-simplified twin
                     twin = H.make_solver(cls, {})
                     for l in labels:
                         twin.add(uni.K[l])
+                tables_before = None
+                if "Composite" in cls:
+                    # a concretely false constraint never enters SolverComposite.constraints (it only sets a flag; C16 / C18
+                    # deal with that), so for the composite the constraint list is compared before / after simplify()
+                    try:
+                        tb = [uni.den(h) for h in s.constraints]
+                        tables_before = tuple(i for i in range(uni.N) if all(t[i] for t in tb))
+                    except DenError:
+                        pass
                 s.simplify()
                 s.simplify()
                 want = uni.models(list(labels))
@@ -412,10 +428,16 @@ def _solver_job(item):
 
                 if twin is not None:
                     want = read(twin)
-                elif hasattr(s, "constraints") and "Composite" not in cls:
+                elif hasattr(s, "constraints"):
                     try:
                         tabs = [uni.den(h) for h in s.constraints]
-                        res["tables"] = tuple(i for i in range(uni.N) if all(t[i] for t in tabs))
+                        after = tuple(i for i in range(uni.N) if all(t[i] for t in tabs))
+                        if "Composite" in cls:
+                            if tables_before is not None and after != tables_before:
+                                res["tables"] = after
+                                out["want_tables"] = tables_before
+                        else:
+                            res["tables"] = after
                     except DenError:
                         pass
                 res["solver"] = read(s)
@@ -434,7 +456,8 @@ def _solver_job(item):
             part.fail(f"{cls}:simplify:raised", case, {"error": out["error"][:200]}, {"kind": "solver", "cls": cls, "labels": labels, "pre": pre})
             continue
         for how, got in out["res"].items():
-            if tuple(got) != tuple(out["want"]):
+            want_ = out.get("want_tables") if (how == "tables" and "want_tables" in out) else out["want"]
+            if tuple(got) != tuple(want_):
                 part.fail(f"{cls}:simplify-changed-models:{how}", case, {"models_before": len(out["want"]), "after": len(got)}, {"kind": "solver", "cls": cls, "labels": labels, "pre": pre})
         part.sample({"solver": case, "models": len(out["want"])}, limit=1)
     return part.dump()
@@ -448,7 +471,7 @@ def solver_cases(tier):
         for labels in itertools.permutations(sk, n):
             if n == 3 and not (labels[0] < labels[1]):
                 continue
-            pres = ("none", "sat", "eval", "min") if (n < 3 and tier != "quick") else ("none", "eval")
+            pres = ("none", "sat", "eval", "min", "round2") if (n < 3 and tier != "quick") else ("none", "eval", "round2")
             for pre in pres:
                 out.append((labels, pre))
     return out
